@@ -130,11 +130,11 @@ theorem gridRerunK_rel {β γ : Type} {Q : β → γ → Prop} (c : Ctx α) (av 
     (h : LR P (NA w) items items')
     (k : List (GridTrack α) × List (GridTrack α) × List (GItem α) → GM α β)
     (k' : List (GridTrack α) × List (GridTrack α) × List (GItem α) → GM α γ)
-    (hk : ∀ r r', R3 P (NA w) r r' → GRel w Q (k r) (k' r')) :
-    GRel w Q (gridRerunK c av hb ccb ins columns rows items k) (gridRerunK c av hb ccb ins columns rows items' k') := by
+    (hk : ∀ r r', R3 P (NA w) r r' → GRelW w Q (k r) (k' r')) :
+    GRelW w Q (gridRerunK c av hb ccb ins columns rows items k) (gridRerunK c av hb ccb ins columns rows items' k') := by
   unfold gridRerunK
   dsimp only
-  refine GRel.bind (Q := fun r r' => r'.1 = r.1 ∧ LR P (NA w) r.2 r'.2) ?_ fun r r' hr => ?_
+  refine GRelW.bind (Q := fun r r' => r'.1 = r.1 ∧ LR P (NA w) r.2 r'.2) (GRelW.of_GRel ?_) fun r r' hr => ?_
   · refine GRel.ite ?_ ?_
     · exact minContentChanged_rel hg hR _ _ _ _ _ h
     · exact GRel.pure ⟨rfl, clearCaches_rel _ _ _ h⟩
@@ -143,7 +143,7 @@ theorem gridRerunK_rel {β γ : Type} {Q : β → γ → Prop} (c : Ctx α) (av 
     obtain ⟨hb', hl⟩ := hr
     simp only at hb' hl
     subst hb'
-    exact GRel.bind (gridRerunBody_rel hg hR c av hb ins _ _ _ _ _ hl) hk
+    exact GRelW.bind (GRelW.of_GRel (gridRerunBody_rel hg hR c av hb ins _ _ _ _ _ hl)) hk
 
 /-! ### steps 8–9 -/
 
@@ -151,26 +151,26 @@ include hg in
 theorem gridFinish_rel (c : Ctx α) (as bs : List (GridChildStyle α)) (hcs : ChildrenOK w P RC 0 as bs)
     (bb ccb : Size α) (cc rc : GridPlacement.TrackCounts)
     (r r' : List (GridTrack α) × List (GridTrack α) × List (GItem α)) (h : R3 P (NA w) r r') :
-    GRel w QO (gridFinish c as bb ccb cc rc r) (gridFinish c bs bb ccb cc rc r') := by
+    GRelW w QO (gridFinish c as bb ccb cc rc r) (gridFinish c bs bb ccb cc rc r') := by
   obtain ⟨h1, h2, h3⟩ := h
   unfold gridFinish
   rw [h1, h2]
   dsimp only
   have hs := h3.mergeSort (fun a b => decide (a.sourceOrder ≤ b.sourceOrder))
     (fun a b => by rw [phi_sourceOrder, phi_sourceOrder])
-  refine GRel.bind (positionItems_rel hg as bs hcs _ _ _ _ _ _ 0 _ _ hs hg.rc0) fun q q' hq => ?_
+  refine GRelW.bind (GRelW.of_GRel (positionItems_rel hg as bs hcs _ _ _ _ _ _ 0 _ _ hs hg.rc0)) fun q q' hq => ?_
   obtain ⟨l, acc⟩ := q
   obtain ⟨l', acc'⟩ := q'
   obtain ⟨hl, hacc⟩ := hq
   simp only at hl hacc
   dsimp only
   rw [hl.length]
-  refine GRel.bind (hiddenAbsLoop_rel hg c bb _ _ cc rc as bs 0 _ _ _ hcs hacc) fun x x' hx => ?_
+  refine GRelW.bind (hiddenAbsLoop_rel hg c bb _ _ cc rc as bs 0 _ _ _ hcs hacc) fun x x' hx => ?_
   rw [hl.isEmpty]
-  refine GRel.ite ?_ ?_
-  · exact GRel.pure (hg.outRefl _)
+  refine GRelW.ite ?_ ?_
+  · exact GRelW.pure (hg.outRefl _)
   · rw [gridContainerBaseline_rel _ _ hl]
-    exact GRel.pure (hg.out _ _ _ _ hx)
+    exact GRelW.pure (hg.out _ _ _ _ hx)
 
 /-! ### step 6 -/
 
@@ -178,13 +178,13 @@ include hg hR in
 theorem gridAfterSizing_rel (c : Ctx α) (as bs : List (GridChildStyle α)) (hcs : ChildrenOK w P RC 0 as bs)
     (inp : LayoutInput α) (hb : Bool) (cc rc : GridPlacement.TrackCounts) (ins0 : Size (Option α)) (ics : α)
     (st st' : RunState α) (h : RST P (NA w) st st') :
-    GRel w QO (gridAfterSizing c as inp hb cc rc ins0 ics st) (gridAfterSizing c bs inp hb cc rc ins0 ics st') := by
+    GRelW w QO (gridAfterSizing c as inp hb cc rc ins0 ics st) (gridAfterSizing c bs inp hb cc rc ins0 ics st') := by
   obtain ⟨h1, h2, h3⟩ := h
   unfold gridAfterSizing
   rw [h1, h2]
   dsimp only
-  refine GRel.ite ?_ ?_
-  · exact GRel.pure (hg.outRefl _)
+  refine GRelW.ite ?_ ?_
+  · exact GRelW.pure (hg.outRefl _)
   · exact gridRerunK_rel hg hR c _ hb _ _ _ _ _ _ h3 _ _ fun r r' hr => gridFinish_rel hg c as bs hcs _ _ cc rc r r' hr
 
 /-- the setups of the two runs -/
@@ -195,18 +195,18 @@ def RSU (P : Nat → Bool) (G : Nat → Prop) (su su' : Setup α) : Prop :=
 include hg hR in
 theorem gridSizing_rel (c : Ctx α) (as bs : List (GridChildStyle α)) (hcs : ChildrenOK w P RC 0 as bs)
     (inp : LayoutInput α) (su su' : Setup α) (h : RSU P (NA w) su su') :
-    GRel w QO (gridSizing c as inp su) (gridSizing c bs inp su') := by
+    GRelW w QO (gridSizing c as inp su) (gridSizing c bs inp su') := by
   obtain ⟨h1, h2, h3, h4, h5⟩ := h
   unfold gridSizing
   rw [h1, h2, h3, h4, h5.any _ (fun a => by rw [phi_alignSelf])]
   dsimp only
-  refine GRel.bind (trackSizingAlgorithmM_rel hg.toReads hR _ _ _ ?_) fun s s' hs => ?_
+  refine GRelW.bind (GRelW.of_GRel (trackSizingAlgorithmM_rel hg.toReads hR _ _ _ ?_)) fun s s' hs => ?_
   · exact ⟨rfl, rfl, h5⟩
   obtain ⟨hs1, hs2, hs3⟩ := hs
   rw [hs1, hs2]
   have hmap := hs3.map (fun it => { it with availableSpaceCache := none }) (fun it => (phi_setAvail P it none).symm)
     (fun it => rfl)
-  refine GRel.bind (trackSizingAlgorithmM_rel hg.toReads hR _ _ _ ?_) fun t t' ht => ?_
+  refine GRelW.bind (GRelW.of_GRel (trackSizingAlgorithmM_rel hg.toReads hR _ _ _ ?_)) fun t t' ht => ?_
   · exact ⟨rfl, rfl, hmap⟩
   exact gridAfterSizing_rel hg hR c as bs hcs inp _ _ _ _ _ t t' ht
 
@@ -270,27 +270,27 @@ theorem gridSetupK_rel {β γ : Type} {Q : β → γ → Prop} (style : GridStyl
     (hest : ∀ ec er, GridPlacement.computeGridSizeEstimate ec er (boxChildren bs) =
       GridPlacement.computeGridSizeEstimate ec er (boxChildren as))
     (c : Ctx α) (k : Setup α → GM α β) (k' : Setup α → GM α γ)
-    (hk : ∀ su su', RSU P (NA w) su su' → GRel w Q (k su) (k' su')) :
-    GRel w Q (gridSetupK style as c k) (gridSetupK style bs c k') := by
+    (hk : ∀ su su', RSU P (NA w) su su' → GRelW w Q (k su) (k' su')) :
+    GRelW w Q (gridSetupK style as c k) (gridSetupK style bs c k') := by
   unfold gridSetupK
   have hin : inFlowChildren bs = inFlowChildren as := inFlowChildren_rel as bs 0 hcs
   rw [hin]
   dsimp only
-  refine GRel.bind (GRel.ofExcept _ fun _ => rfl) fun ec ec' hec => ?_
+  refine GRelW.bind (GRelW.of_GRel (GRel.ofExcept _ fun _ => rfl)) fun ec ec' hec => ?_
   subst hec
-  refine GRel.bind (GRel.ofExcept _ fun _ => rfl) fun er er' her => ?_
+  refine GRelW.bind (GRelW.of_GRel (GRel.ofExcept _ fun _ => rfl)) fun er er' her => ?_
   subst her
   rw [hest]
-  refine GRel.bind (GRel.ofOutcome _ fun _ => rfl) fun e e' he => ?_
+  refine GRelW.bind (GRelW.of_GRel (GRel.ofOutcome _ fun _ => rfl)) fun e e' he => ?_
   subst he
-  refine GRel.bind (GRel.ofOutcome _ fun _ => rfl) fun m m' hm => ?_
+  refine GRelW.bind (GRelW.of_GRel (GRel.ofOutcome _ fun _ => rfl)) fun m m' hm => ?_
   subst hm
   cases hpl : GridPlacement.placeGridItems GridPlacement.defaultFuel m (inFlowChildren as) style.gridAutoFlow with
-  | panic msg => exact GRel.throw _
-  | overflow => exact GRel.throw _
-  | outOfFuel => exact GRel.throw _
+  | panic msg => exact GRelW.of_GRel (GRel.throw _)
+  | overflow => exact GRelW.of_GRel (GRel.throw _)
+  | outOfFuel => exact GRelW.of_GRel (GRel.throw _)
   | ok placed =>
-    show GRel w Q ((Pure.pure placed : GM α _) >>= _) ((Pure.pure placed : GM α _) >>= _)
+    show GRelW w Q ((Pure.pure placed : GM α _) >>= _) ((Pure.pure placed : GM α _) >>= _)
     rw [pure_bind, pure_bind]
     have hitems : LR P (NA w)
         (placed.items.reverse.map (mkItem as (c.alignItems.getD .stretch) (c.justifyItems.getD .stretch)))
@@ -318,30 +318,41 @@ theorem gridSetupK_rel {β γ : Type} {Q : β → γ → Prop} (style : GridStyl
         exact List.map_congr_left fun p hp => (key p (List.mem_reverse.1 hp)).1
       · obtain ⟨p, hp, rfl⟩ := List.mem_map.1 hx
         exact (key p (List.mem_reverse.1 hp)).2
-    refine GRel.bind (GRel.ofExcept _ fun _ => rfl) fun cols cols' hc => ?_
+    refine GRelW.bind (GRelW.of_GRel (GRel.ofExcept _ fun _ => rfl)) fun cols cols' hc => ?_
     subst hc
-    refine GRel.bind (GRel.ofExcept _ fun _ => rfl) fun rows rows' hr => ?_
+    refine GRelW.bind (GRelW.of_GRel (GRel.ofExcept _ fun _ => rfl)) fun rows rows' hr => ?_
     subst hr
-    refine GRel.bind (GRel.ofOutcome_rel (resolveItemTrackIndexes_rel _ _ _ _ hitems)) fun l l' hl => ?_
+    refine GRelW.bind (GRelW.of_GRel (GRel.ofOutcome_rel (resolveItemTrackIndexes_rel _ _ _ _ hitems))) fun l l' hl => ?_
     exact hk _ _ ⟨rfl, rfl, rfl, rfl, determineCrossings_rel _ _ _ _ hl⟩
 
 /-! ### the whole algorithm -/
 
 include hg hR in
-/-- **computeGridLayoutE_rel** -/
-theorem computeGridLayoutE_rel (style : GridStyle α) (as bs : List (GridChildStyle α)) (inp : LayoutInput α)
+/-- **computeGridLayoutE_relW**: related up to the panics the world tolerates (`w.errL`, `w.errR`; the only place where
+the two runs can panic differently is the resolution of an absolutely positioned child's grid lines) -/
+theorem computeGridLayoutE_relW (style : GridStyle α) (as bs : List (GridChildStyle α)) (inp : LayoutInput α)
     (hcs : ChildrenOK w P RC 0 as bs)
     (hest : ∀ ec er, GridPlacement.computeGridSizeEstimate ec er (boxChildren bs) =
       GridPlacement.computeGridSizeEstimate ec er (boxChildren as)) :
-    GRel w QO (computeGridLayoutE style as inp) (computeGridLayoutE style bs inp) := by
+    GRelW w QO (computeGridLayoutE style as inp) (computeGridLayoutE style bs inp) := by
   rw [computeGridLayoutE_eq, computeGridLayoutE_eq]
-  have hmain : GRel w QO
+  have hmain : GRelW w QO
       (gridSetupK style as (mkCtx style.base inp) (gridSizing (mkCtx style.base inp) as inp))
       (gridSetupK style bs (mkCtx style.base inp) (gridSizing (mkCtx style.base inp) bs inp)) :=
     gridSetupK_rel hg hR style as bs hcs hest _ _ _ fun su su' hsu =>
       gridSizing_rel hg hR _ as bs hcs inp su su' hsu
   split
-  · exact GRel.pure (hg.outRefl _)
+  · exact GRelW.pure (hg.outRefl _)
   · exact hmain
+
+include hg hR in
+/-- **computeGridLayoutE_rel**: in a world that tolerates no panic the two programs are related, panics included -/
+theorem computeGridLayoutE_rel (style : GridStyle α) (as bs : List (GridChildStyle α)) (inp : LayoutInput α)
+    (hcs : ChildrenOK w P RC 0 as bs)
+    (hest : ∀ ec er, GridPlacement.computeGridSizeEstimate ec er (boxChildren bs) =
+      GridPlacement.computeGridSizeEstimate ec er (boxChildren as))
+    (hL : ¬ w.errL) (hR' : ¬ w.errR) :
+    GRel w QO (computeGridLayoutE style as inp) (computeGridLayoutE style bs inp) :=
+  (computeGridLayoutE_relW hg hR style as bs inp hcs hest).to_GRel (fun h => (hL h).elim) (fun h => (hR' h).elim)
 
 end GridRel
